@@ -559,7 +559,7 @@ class Factory:
                              metrics.PoseRelation.full_transformation, metrics.PoseRelation.rotation_angle_rad])
         if name == "plane":
             return Plane.XY
-        if name in ("start_timestamp", "end_timestamp"):
+        if name in ("start_timestamp", "end_timestamp") and not fname.startswith("evo.tools.plot."):
             return None
         if name == "df":
             from evo.tools import pandas_bridge
